@@ -246,6 +246,7 @@ func gen(rng *rand.Rand, tier core.Tier, emit core.Emit) {
 	for _, k := range []string{"0", "2"} {
 		emit("ctcp", k, "none")
 		emit("ctcp", k, "idle")
+		emit("ctcp", k, "idle0")
 		emit("ctcp", k, core.Hex(BrowserRequest(rng, "", []string{"hostname", "gametype"}, []byte{0, 0, 0, 0})))
 		emit("ctcp", k, core.Hex(BrowserRequest(rng, "gametype='CO-OP' and numplayers>0", []string{"hostname", "numplayers", "bogus"}, []byte{0, 0, 0, 1})))
 	}
@@ -319,6 +320,13 @@ func gen(rng *rand.Rand, tier core.Tier, emit core.Emit) {
 			emit("udpsrv", strings.Join(ps, "/"))
 		}
 	}
+	// through the real socket: what the read loop does before the dispatcher (empty datagrams, datagrams on and over the buffer size), and hostile histories
+	for _, h := range reputil.WireEdgeHistories(rng) {
+		emit("whist", h...)
+	}
+	for i := 0; i < 12; i++ {
+		emit("whist", reputil.WireHistory(rng, 2+rng.Intn(8), 1+rng.Intn(2), 40, 50)...)
+	}
 }
 
 // ---------------------------------------------------------------------------------------------- exec
@@ -329,6 +337,8 @@ func exec(op string, args []string) []string {
 		switch op {
 		case "hist":
 			out = reputil.RunHistory(args)
+		case "whist": // the same through the real reporter component and a real UDP socket (empty and over-long datagrams included)
+			out = reputil.RunWireHistory(args)
 		case "tcp":
 			out = runTCP(args, "4")
 		case "tcpm": // the same through a dual-stack listener: the handler sees the IPv4 peer as a 16-byte IPv4-mapped address
